@@ -239,6 +239,12 @@ async fn read_socks_addr(stream: Arc<Stream>) -> Result<SocksAddr> {
     Ok(SocksAddr { addr, port })
 }
 
+/// Verification hook: run the private destination parser on a stream.
+#[cfg(feature = "verif-hooks")]
+pub async fn verif_read_socks_addr(stream: Arc<Stream>) -> Result<(String, u16)> {
+    read_socks_addr(stream).await.map(|a| (a.addr, a.port))
+}
+
 /// Proxy TCP connection with SYNACK support (internal version with destination already provided)
 async fn proxy_tcp_connection_with_synack_internal(
     stream: Arc<Stream>,
